@@ -100,9 +100,9 @@ func (q *Req) URI() string {
 
 // Arg is a literal argument of a primitive call.
 type Arg struct {
-	S      string
-	B      bool
-	IsBool bool
+	S      string `json:"s"`
+	B      bool   `json:"b"`
+	IsBool bool   `json:"is_bool"`
 }
 
 // ---- matching helpers -------------------------------------------------------
@@ -139,10 +139,16 @@ func anyOf(patterns string, ci bool, v string, test func(v, p string) bool) bool
 
 func eq(v, p string) bool { return v == p }
 
-func in(patterns string, ci bool, v string) bool      { return anyOf(patterns, ci, v, eq) }
-func prefixIn(patterns string, ci bool, v string) bool { return anyOf(patterns, ci, v, strings.HasPrefix) }
-func suffixIn(patterns string, ci bool, v string) bool { return anyOf(patterns, ci, v, strings.HasSuffix) }
-func contain(patterns string, ci bool, v string) bool  { return anyOf(patterns, ci, v, strings.Contains) }
+func in(patterns string, ci bool, v string) bool { return anyOf(patterns, ci, v, eq) }
+func prefixIn(patterns string, ci bool, v string) bool {
+	return anyOf(patterns, ci, v, strings.HasPrefix)
+}
+func suffixIn(patterns string, ci bool, v string) bool {
+	return anyOf(patterns, ci, v, strings.HasSuffix)
+}
+func contain(patterns string, ci bool, v string) bool {
+	return anyOf(patterns, ci, v, strings.Contains)
+}
 
 // elementPrefix: the pattern, read as a sequence of path elements, is a prefix
 // of the path's elements ("/api/report/" matches /api/report and
@@ -190,6 +196,7 @@ const (
 	MTag
 	MTime
 	MPeriodic
+	MExact // "match": the whole argument is one pattern
 )
 
 // Attribute inspected by a primitive.
@@ -254,6 +261,10 @@ type Spec struct {
 	// Eval is the reference semantics. now is the current time (Unix seconds)
 	// used by the time primitives.
 	Eval func(a []Arg, q *Req, now int64) bool
+	// EvalFold (value-style primitives whose docs are silent about letter
+	// case) is Eval with ASCII case folding; a case where Eval != EvalFold
+	// depends on undocumented behaviour and is skipped by the checker.
+	EvalFold func(a []Arg, q *Req, now int64) bool
 }
 
 // value-style primitive: fetch one optional string, apply a matcher to the
@@ -270,13 +281,13 @@ func valueSpec(name string, doc bool, attr Attr, class MatchClass, kinds []Kind,
 			ci = i
 		}
 	}
-	return Spec{Name: name, Kinds: kinds, Documented: doc, Attr: attr, Class: class, Case: cs,
-		Eval: func(a []Arg, q *Req, now int64) bool {
+	mk := func(forceFold bool) func(a []Arg, q *Req, now int64) bool {
+		return func(a []Arg, q *Req, now int64) bool {
 			v, ok := fetch(a, q)
 			if !ok {
 				return false // a missing attribute makes the primitive false
 			}
-			fc := cs == CaseInsensitive
+			fc := cs == CaseInsensitive || forceFold
 			if ci >= 0 {
 				fc = a[ci].B
 			}
@@ -294,9 +305,17 @@ func valueSpec(name string, doc bool, attr Attr, class MatchClass, kinds []Kind,
 				return anyOf(p, fc, v, elementPrefix)
 			case MRegexp:
 				return regmatch(p, v)
+			case MExact:
+				return fold(v, fc) == fold(p, fc)
 			}
 			panic("valueSpec: class")
-		}}
+		}
+	}
+	sp := Spec{Name: name, Kinds: kinds, Documented: doc, Attr: attr, Class: class, Case: cs, Eval: mk(false)}
+	if cs == CaseSilent && class != MRegexp {
+		sp.EvalFold = mk(true)
+	}
+	return sp
 }
 
 var (
@@ -477,7 +496,7 @@ func buildSpecs() map[string]Spec {
 		// --- primitives without a doc page: semantics from the naming
 		// convention (in / suffix_in / contain / regmatch / match) only
 		flagSpec("default_t", false, ANone, func(q *Req) bool { return true }),
-		valueSpec("req_proto_match", false, AProto, MIn, kS, CaseSilent, fProto),
+		valueSpec("req_proto_match", false, AProto, MExact, kS, CaseSilent, fProto),
 		valueSpec("req_host_regmatch", false, AHost, MRegexp, kR, CaseSilent, fHost),
 		valueSpec("req_host_tag_in", false, AHostTag, MIn, kS, CaseSilent, fHostTag),
 		valueSpec("req_host_suffix_in", false, AHost, MSuffix, kS, CaseSilent, fHost),
